@@ -143,7 +143,7 @@ def compare(members, got, disk_ok=True):
     if "disk" in got:
         dk = got["disk"]
         for m in members:
-            rec = dk.get(m["name"])
+            rec = dk.get(m["name"].rstrip("/") if m["kind"] == "dir" else m["name"])
             if rec is None:
                 bad.append(("disk-missing", "%r (%s) not created on disk" % (m["name"], m["kind"])))
                 continue
